@@ -23,6 +23,30 @@ fn value_pool() -> Vec<Value> {
     ]
 }
 
+/// paced streams: reply k of the call carrying `token` is written only once the driver has granted k permits
+static PACE: Mutex<Option<std::collections::HashMap<String, usize>>> = Mutex::new(None);
+static PACE_CV: std::sync::Condvar = std::sync::Condvar::new();
+
+fn pace_grant(token: &str, n: usize) {
+    let mut g = PACE.lock().unwrap();
+    g.get_or_insert_with(Default::default).insert(token.to_string(), n);
+    PACE_CV.notify_all();
+}
+
+fn pace_wait(token: &str, n: usize) -> bool {
+    let mut g = PACE.lock().unwrap();
+    let t0 = std::time::Instant::now();
+    loop {
+        if g.as_ref().and_then(|m| m.get(token)).copied().unwrap_or(0) >= n {
+            return true;
+        }
+        if t0.elapsed() > Duration::from_secs(30) {
+            return false;
+        }
+        g = PACE_CV.wait_timeout(g, Duration::from_millis(200)).unwrap().0;
+    }
+}
+
 fn serve_conn<S: Read + Write>(mut s: S) {
     let mut buf: Vec<u8> = Vec::new();
     let mut tmp = [0u8; 4096];
@@ -36,6 +60,20 @@ fn serve_conn<S: Read + Write>(mut s: S) {
             let msg: Vec<u8> = buf.drain(..=p).collect();
             let req: Value = serde_json::from_slice(&msg[..msg.len() - 1]).unwrap_or(Value::Null);
             let replies = req["parameters"]["replies"].as_array().cloned().unwrap_or_default();
+            if let Some(token) = req["parameters"]["pace"].as_str() {
+                // one reply at a time, each when the driver says so; the connection stays open in between
+                let n = replies.len();
+                for (k, r) in replies.into_iter().enumerate() {
+                    if !pace_wait(token, k + 1) {
+                        return;
+                    }
+                    let mut out = serde_json::to_vec(&r).unwrap();
+                    out.push(0);
+                    let _ = s.write_all(&out);
+                }
+                pace_wait(token, n + 1);
+                return;
+            }
             let mut out = Vec::new();
             for r in replies {
                 out.extend_from_slice(&serde_json::to_vec(&r).unwrap());
@@ -67,6 +105,101 @@ fn strip_ansi(s: &str) -> String {
         }
     }
     out
+}
+
+/// `varlink call --more` against a service that sends its replies one at a time and keeps the stream open in between: after the
+/// k-th reply has been sent, the parameters of the successful replies among the first k must be on the tool's standard output
+/// while the call is still in progress (a consumer of a monitor-style stream sees each reply when it arrives).
+fn paced_stream(bin: &str, addr: &str, i: usize, script: &[Value], obs: &Value, pool: &[Value]) -> Option<String> {
+    let token = format!("pace-{}-{}", std::process::id(), i);
+    let mut replies: Vec<Value> = Vec::new();
+    for (k, r) in script.iter().enumerate() {
+        let mut v = json!({});
+        match r["err"].as_str().unwrap() {
+            "" => {
+                if r["par"].as_bool().unwrap() {
+                    v["parameters"] = pool[(i + k) % pool.len()].clone();
+                }
+            }
+            "std" => {
+                v["error"] = json!("org.varlink.service.InvalidParameter");
+                v["parameters"] = json!({"parameter": format!("p{}", k)});
+            }
+            _ => {
+                v["error"] = json!(format!("org.example.t.Custom{}", k));
+            }
+        }
+        if r["cont"] == json!(true) {
+            v["continues"] = json!(true);
+        }
+        replies.push(v);
+    }
+    let args = json!({"replies": replies, "pace": token});
+    let mut cmd = Command::new(bin);
+    cmd.arg("--color").arg("off").arg("call").arg("--more").arg(format!("{}/org.example.t.M", addr)).arg(args.to_string());
+    cmd.stdin(Stdio::null()).stdout(Stdio::piped()).stderr(Stdio::null());
+    let mut child = match cmd.spawn() {
+        Ok(c) => c,
+        Err(e) => return Some(format!("cannot run {}: {}", bin, e)),
+    };
+    let so = child.stdout.take().unwrap();
+    let buf: Arc<Mutex<Vec<u8>>> = Default::default();
+    let b2 = buf.clone();
+    let rd = std::thread::spawn(move || {
+        let mut so = so;
+        let mut tmp = [0u8; 4096];
+        loop {
+            match so.read(&mut tmp) {
+                Ok(0) | Err(_) => return,
+                Ok(n) => b2.lock().unwrap().extend_from_slice(&tmp[..n]),
+            }
+        }
+    });
+    let printed = |buf: &Arc<Mutex<Vec<u8>>>| -> Vec<Value> {
+        let b = buf.lock().unwrap().clone();
+        let text = String::from_utf8_lossy(&b).to_string();
+        serde_json::Deserializer::from_str(&text).into_iter::<Value>().take_while(|v| v.is_ok()).map(|v| v.unwrap()).collect()
+    };
+    let outs: Vec<usize> = obs["out"].as_array().unwrap().iter().map(|x| x.as_u64().unwrap() as usize).collect();
+    let mut verdict = None;
+    for k in 1..=replies.len() {
+        pace_grant(&token, k);
+        let want: Vec<Value> = outs.iter().filter(|ix| **ix <= k).map(|ix| replies[*ix - 1].get("parameters").cloned().unwrap_or(json!({}))).collect();
+        let t0 = std::time::Instant::now();
+        let mut got = printed(&buf);
+        while got.len() < want.len() && t0.elapsed() < Duration::from_secs(6) {
+            std::thread::sleep(Duration::from_millis(2));
+            got = printed(&buf);
+        }
+        if got != want {
+            verdict = Some(format!("reply {} of {} has been sent and the stream is still open: standard output holds {} value(s) {:?}, expected the parameters of the successful replies so far {:?}",
+                k, replies.len(), got.len(), got, want));
+            break;
+        }
+        if outs.iter().all(|ix| *ix <= k) && (replies[k - 1].get("error").is_some() || replies[k - 1].get("continues").is_none()) {
+            break; // final reply or error: the call is over
+        }
+    }
+    pace_grant(&token, replies.len() + 1);
+    let t0 = std::time::Instant::now();
+    loop {
+        match child.try_wait() {
+            Ok(Some(_)) | Err(_) => break,
+            Ok(None) => {
+                if t0.elapsed() > Duration::from_secs(10) {
+                    let _ = child.kill();
+                    let _ = child.wait();
+                    if verdict.is_none() {
+                        verdict = Some("varlink call --more did not terminate within 10 s after the service closed the stream".into());
+                    }
+                    break;
+                }
+                std::thread::sleep(Duration::from_millis(2));
+            }
+        }
+    }
+    let _ = rd.join();
+    verdict
 }
 
 pub fn run(_args: &[String]) {
@@ -121,6 +254,14 @@ pub fn run(_args: &[String]) {
             let script = case["script"].as_array().unwrap();
             let more = case["more"].as_bool().unwrap();
             let obs = &case["obs"];
+            // a stream that is still open: every reply is on standard output when it has arrived, not when the call is over
+            if more && !script.is_empty() {
+                if let Some(d) = paced_stream(&bin, &addrs[i % addrs.len()].0, i, script, obs, &pool) {
+                    fails.lock().unwrap().push(json!({"fail": true, "case": i, "variant": format!("{} paced stream", addrs[i % addrs.len()].1), "detail": d,
+                        "sig": format!("paced script={}", case["script"]), "input": case}));
+                }
+                execs.fetch_add(1, Ordering::Relaxed);
+            }
             // every address form and both colour settings; the value pool rotates
             for (ai, (addr, aname)) in addrs.iter().enumerate() {
                 for colour in ["on", "off"] {
